@@ -7,7 +7,7 @@ The model is faithful to the code also where the code violates a property; these
 down on concrete inputs, next to the `…_partial` theorems that cover the complement.
 K1: `T_agg_K1_counterexample` (TAgg.lean), `C08_K1_counterexample` (C08.lean).  K3: the negative `decide` examples
 of `Module.valid` in TLex.lean.  K4: `C12_K4_counterexample` (C12.lean), `¬ Nodup` examples in C13/C14.
-K5: `C19_K5_counterexample`.  K6: `CType.accepts .strSeq .map = true` below.
+K5: `C19_K5_counterexample`.  K6: `CType.accepts .strSeq .map = true` below.  K8: `K8_stale_declaration_swallows_later_definition` below.
 -/
 namespace Cminx
 
@@ -31,5 +31,32 @@ theorem K2_undocumented_generic_command (cfg : Cfg) (st : AggState) (args : List
 
 /-- K6: the header list accepts a mapping (confuse.StrSeq iterates any iterable) -/
 theorem K6_strseq_accepts_mapping : CType.accepts .strSeq .map = true := rfl
+
+/-- K8: a member declaration that is never implemented (`cpp_member(area Shape)` + `cpp_virtual_member(area)`) stays in the
+awaiting slot, and the next `function()` *anywhere later* — here the unrelated, undocumented `helper` after the class has
+been closed — is taken for its implementation: `helper` gets no entry of its own (C02: "exactly one entry for each function")
+and the method shows `helper`'s parameter `y`. -/
+def exK8 : List Event :=
+  [ .cmd ⟨lit "cpp_class", [.single (lit "Shape")]⟩,
+    .docCmd (lit "#[[[\n# Area.\n#]]") ⟨lit "cpp_member", [.single (lit "area"), .single (lit "Shape")]⟩,
+    .cmd ⟨lit "cpp_virtual_member", [.single (lit "area")]⟩,
+    .cmd ⟨lit "cpp_end_class", []⟩,
+    .cmd ⟨lit "function", [.single (lit "helper"), .single (lit "x"), .single (lit "y")]⟩,
+    .cmd ⟨lit "endfunction", []⟩ ]
+
+theorem K8_stale_declaration_swallows_later_definition :
+    (aggregate {} exK8).toOption.map (fun s => s.documented.map (fun e => match e with
+        | .func _ n _ ps _ => (n, ps)
+        | .cls n _ _ _ _ ms _ => (n, ms.flatMap (fun m => m.params))
+        | _ => ([], []))) =
+      some [(lit "Shape", [lit "y"])] := by
+  decide +kernel
+
+/-- … whereas without the stale declaration `helper` has its entry -/
+theorem K8_without_declaration :
+    (aggregate {} (exK8.eraseIdx 1)).toOption.map (fun s => s.documented.map (fun e => match e with
+        | .func _ n _ ps _ => (n, ps) | .cls n .. => (n, []) | _ => ([], []))) =
+      some [(lit "Shape", []), (lit "helper", [lit "x", lit "y"])] := by
+  decide +kernel
 
 end Cminx
